@@ -101,6 +101,8 @@ def check(prog: Program, rep):
     rep.rule("C15.R1", "formulations conform to the frozen table; helper preconditions", floor=20)
     conformance(prog, rep, "C15.R1", "C15")
     semantic.helper_preconditions(prog, rep, "C15.R1", "MinGenSet")
+    from rules.common import helpers_exact
+    helpers_exact(prog, rep, "C15.R1")
     rep.rule("C15.R2", "search protocol of MinGenSet.solve", floor=4)
     k_loop_protocol(prog, rep, "C15.R2", "MinGenSet", "solve", {"self.lowerbound"})
     rep.rule("C15.R3", "k-range reaches len(numbers)+1", floor=1)
